@@ -4,20 +4,50 @@
    Vocabulary (Model/Accept.v):  [ser_buf k ws t v : writer] is `<K as SerializeValue>::serialize`
    on the buffer (a writer maps the buffer to the buffer after the call and the error, if any);
    [ser_out] is the same on the empty buffer;  [ser_accepts k t] / [deser_accepts k t] are the
-   type checks of the code at the type level;  [doc_compat d k t] is the documentation's table,
-   [spec_compat] adds the two relaxations the API documentation states for serialisation;
-   [add_value], [sv_iter], [run_ops], [from_row] model SerializedValues. *)
+   type checks of the code at the type level;  [doc_compat d k t] is the documentation alone,
+   [spec_compat] the documentation plus three named concessions (flags of [compat]: short Rust
+   tuple, Rust set at a list column, not-set markers below the bind marker), [code_compat] drops
+   the vector element rule as well - that one is the defect F2b;  [val_fits k t v] says that the
+   value, as it is written, is a value of the column type ([dyn_fits] for a CqlValue);
+   [add_value], [sv_iter], [run_ops], [from_row] model SerializedValues;  [row_check] /
+   [typed_rows] the row type check in front of every typed row iterator. *)
 From SV Require Import Base.Prelude Base.Bytes Model.Vint Model.Cql Model.Accept Proofs.Cql_proofs Proofs.Accept_proofs.
 Open Scope N_scope.
 
 (* ---- the acceptance matrices ----------------------------------------------------------- *)
 
-(* Serialisation accepts exactly the pairs of the specification, at every nesting depth, outside
-   the known class (natives: 35 x 20 sweep by computation inside the proof; containers by
-   induction on the carrier).  Full-strength statement, FALSE for the code as it is (F2b):
-     forall k t, ser_accepts k t = spec_compat Ser k t. *)
+(* What the code's serialisation type checks are, with no premise at all: the documentation, the
+   three concessions, and NO vector element rule - every carrier, every type, every depth
+   (natives: 35 x 20 sweep by computation inside the proof; containers by induction) *)
+Theorem C17_code_matrix : forall k top t, ser_accepts k t = compat as_code Ser top k t.
+Proof. exact code_matrix. Qed.
+
+(* Full-strength statement of the property, FALSE for the code as it is:
+     forall k t, ser_accepts k t = doc_compat Ser k t.
+   The four ways in which it fails, one witness each: the three concessions (accepted, harmless,
+   undocumented: observations O1-O3 of docs/C17.md) and the known finding F2b. *)
+Theorem C17_matrix_ser_doc_refuted :
+  (exists k t, ser_accepts k t = true /\ doc_compat Ser k t = false /\
+               compat {| r_tuple := true; r_set := false; r_unset := false; r_vec := false |} Ser true k t = true) /\
+  (exists k t, ser_accepts k t = true /\ doc_compat Ser k t = false /\
+               compat {| r_tuple := false; r_set := true; r_unset := false; r_vec := false |} Ser true k t = true) /\
+  (exists k t, ser_accepts k t = true /\ doc_compat Ser k t = false /\
+               compat {| r_tuple := false; r_set := false; r_unset := true; r_vec := false |} Ser true k t = true) /\
+  (exists k t, ser_accepts k t = true /\ spec_compat Ser k t = false /\ known_class k t = true).
+Proof.
+  split; [exists (KTuple [KBase BI32]), (TTuple [TNative NInt; TNative NText])|].
+  2: split; [exists (KHashSet (KBase BI32)), (TList (TNative NInt))|].
+  3: split; [exists (KVec (KMaybeUnset (KBase BI32))), (TList (TNative NInt))|
+             exists (KVec (KOption (KBase BI32))), (TVector (TNative NInt) 2)].
+  all: vm_compute; repeat split; reflexivity.
+Qed.
+
+(* Outside the known class serialisation accepts exactly the documented pairs and the conceded ones *)
 Theorem C17_matrix_ser : forall k t, known_class k t = false -> ser_accepts k t = spec_compat Ser k t.
 Proof. exact matrix_ser. Qed.
+Theorem C17_matrix_ser_doc : forall k t, known_class k t = false ->
+  ser_accepts k t = doc_compat Ser k t || relaxed k t.
+Proof. exact matrix_ser_doc. Qed.
 
 (* the known class is real: Vec<Option<i32>> bound to vector<int, 2> is accepted, the null marker
    is written as element data (00000008 00000007 ffffffff), and the specification excludes it *)
@@ -30,6 +60,15 @@ Proof.
   vm_compute. repeat split; reflexivity.
 Qed.
 
+(* ... and narrow: only pairs the code accepts, and all of them have the shape of the defect (a
+   nullable / unset / empty-able element carrier under a vector type) *)
+Theorem C17_known_class_shape : forall k t, known_class k t = true ->
+  ser_accepts k t = true /\ vector_elem_hole k t = true.
+Proof.
+  intros k t H. split; [|exact (known_class_shape k t H)].
+  unfold known_class in H. apply andb_prop in H as [H _]. exact H.
+Qed.
+
 (* every pair the documentation lists is accepted (and is neither in the known class nor outside
    the specification) *)
 Theorem C17_documented_accepted : forall k t, doc_compat Ser k t = true ->
@@ -39,14 +78,28 @@ Proof.
 Qed.
 
 (* Deserialization: type_check accepts exactly the documented pairs, for every carrier that
-   implements DeserializeValue, at every nesting depth *)
+   implements DeserializeValue, at every nesting depth (no concession applies on this side) *)
 Theorem C17_matrix_deser : forall k t, deser_impl k = true -> deser_accepts k t = doc_compat De k t.
 Proof. exact matrix_deser_doc. Qed.
+
+(* ---- the read side: no column is reinterpreted ---------------------------------------------- *)
 
 (* what TypedRowIterator::new checks once, before any row is read *)
 Theorem C17_row_check : forall ks cols, forallb deser_impl ks = true ->
   row_accepts ks cols = (List.length ks =? List.length cols)%nat && all2 (doc_compat De) ks cols.
 Proof. exact row_accepts_spec. Qed.
+Theorem C17_row_check_ok : forall ks cols, row_check ks cols = RK_Ok <-> row_accepts ks cols = true.
+Proof. exact row_check_ok. Qed.
+
+(* a typed row iterator - the only way rows reach K::deserialize - exists only over columns whose
+   types the documentation lists for the Rust types of the row; otherwise the constructor returns
+   the type-check error and no row is ever decoded *)
+Theorem C17_read_guard : forall ks cols rows n, forallb deser_impl ks = true ->
+  typed_rows ks cols rows = Ok n -> n = rows /\ Forall2 (fun k t => doc_compat De k t = true) ks cols.
+Proof. exact typed_rows_guard. Qed.
+Theorem C17_read_refuses : forall ks cols rows, row_accepts ks cols = false ->
+  exists e, typed_rows ks cols rows = Err e /\ e <> RK_Ok.
+Proof. exact typed_rows_refuses. Qed.
 
 (* ---- the matrix is what happens to values ------------------------------------------------ *)
 
@@ -57,22 +110,63 @@ Theorem C17_accept_sound : forall k ws t v e,
   snd (ser_out k ws t v) = Some e -> is_typeck e = false /\ e <> KE_IllTyped.
 Proof. intros k ws t v e Hs Hv Ha He. exact (accept_sound k ws t v Hs Hv Ha e He). Qed.
 
-(* a rejected pair is refused on every value that reaches all positions of the carrier *)
+(* a rejected pair is refused on every value that reaches all positions of the carrier: with a
+   type-check error, or by one of the three checks that can come before it *)
 Theorem C17_reject_complete : forall k ws t v,
   has_carrier k v = true -> populated v = true -> ser_accepts k t = false ->
-  exists e, snd (ser_out k ws t v) = Some e.
-Proof. exact reject_complete. Qed.
+  exists se, snd (ser_out k ws t v) = Some (KE se) /\
+             (is_typeck (KE se) = true \/ se = SE_VectorLen \/ se = SE_TooManyElements \/ se = SE_SizeOverflow).
+Proof. exact reject_complete_class. Qed.
+
+(* Full-strength reading of "refused for every such pair", FALSE for the code: the type checks are
+   lazy, a value that does not reach the mismatching position is accepted.  What is sent is a
+   null / an empty collection - a value of the column type (val_fits), no mismatched byte
+   (observation O4 of docs/C17.md, not a finding). *)
+Theorem C17_matrix_ser_lazy_refuted :
+  (exists k t v, ser_accepts k t = false /\ has_carrier k v = true /\ val_fits k t v = true /\
+                 ser_out k true t v = ([255; 255; 255; 255], None)) /\
+  (exists k t v, ser_accepts k t = false /\ has_carrier k v = true /\ val_fits k t v = true /\
+                 ser_out k true t v = ([0; 0; 0; 4; 0; 0; 0; 0], None)).
+Proof.
+  split; [exists (KOption (KBase BI32)), (TNative NText), VNull|
+          exists (KVec (KBase BI32)), (TList (TNative NText)), (VSeq [])];
+  vm_compute; repeat split; reflexivity.
+Qed.
+
+(* ---- the property at the level of the bytes: every carrier, every value ------------------- *)
+
+(* a value that, as written, is a value of the column type is never refused by a type check -
+   CqlValue at any position included, populated or not *)
+Theorem C17_value_accept : forall k ws t v e, val_fits k t v = true ->
+  snd (ser_out k ws t v) = Some e -> is_size_err e = true.
+Proof. intros k ws t v e H He. exact (val_accept k ws t v H e He). Qed.
+
+(* a value that is not a value of the column type - the misfit at any depth, in any carrier - is
+   refused, outside the known class.  Full-strength statement (without val_known), FALSE: F2b. *)
+Theorem C17_value_reject : forall k ws t v,
+  has_carrier k v = true -> val_fits k t v = false -> val_known k t v = false ->
+  exists se, snd (ser_out k ws t v) = Some (KE se) /\
+             (is_typeck (KE se) = true \/ se = SE_VectorLen \/ se = SE_TooManyElements \/ se = SE_SizeOverflow).
+Proof. exact val_reject_class. Qed.
+
+(* F2b through a typed container of CqlValue: Vec<CqlValue> = [Int 7, Empty] at vector<int, 2>
+   comes out as a 4-byte vector *)
+Theorem C17_value_reject_refuted :
+  exists k t v, has_carrier k v = true /\ val_fits k t v = false /\ val_known k t v = true /\
+                ser_out k true t v = ([0; 0; 0; 4; 0; 0; 0; 7], None).
+Proof.
+  exists (KVec KCqlValue), (TVector (TNative NInt) 2), (VSeq [VLeaf (CInt 7); VLeaf CEmpty]).
+  vm_compute. repeat split; reflexivity.
+Qed.
 
 (* ---- the dynamic carrier ------------------------------------------------------------------ *)
-(* CqlValue decides per value.  [dyn_fits t v] (Model/Accept.v section 8) says that the CqlValue v
-   is a value of column type t, at every depth. *)
 
 (* a CqlValue that is not a value of the column type - wherever the misfit sits - is refused,
-   outside the known class.  Full-strength statement, FALSE for the code as it is (F2b):
-     forall t ws v, dyn_fits t v = false -> exists e, snd (ser_out KCqlValue ws t (VLeaf v)) = Some e. *)
+   outside the known class.  Full-strength statement (without dyn_known), FALSE: F2b. *)
 Theorem C17_dynamic_reject : forall t ws v, dyn_fits t v = false -> dyn_known t v = false ->
-  exists e, snd (ser_out KCqlValue ws t (VLeaf v)) = Some e.
-Proof. intros t ws v H K. exact (dyn_reject t ws v H K). Qed.
+  exists se, snd (ser_out KCqlValue ws t (VLeaf v)) = Some (KE se) /\
+             (is_typeck (KE se) = true \/ se = SE_VectorLen \/ se = SE_TooManyElements \/ se = SE_SizeOverflow).
+Proof. intros t ws v H K. exact (dyn_reject_class t ws v H K). Qed.
 
 (* the known class on the dynamic path: CqlValue::Vector([Int(7), Empty]) bound to vector<int, 2>
    is accepted and comes out as a 4-byte (short) vector *)
@@ -156,6 +250,19 @@ Theorem C17_chunks : forall cs cnt k t v,
   end.
 Proof. exact add_value_chunks_eq. Qed.
 
+(* the count invariant holds from every constructor on: after from_serializable too *)
+Theorem C17_count_after_row : forall cols vals s ops, from_row cols vals = Ok s ->
+  exists cells, sv_iter (fold_left apply_op ops s) = Some cells /\
+                N.of_nat (List.length cells) = sv_count (fold_left apply_op ops s) /\
+                sv_count (fold_left apply_op ops s) <= u16_max.
+Proof. intros cols vals s ops H. exact (wf_ops_count s ops (from_row_wf cols vals s H)). Qed.
+
+(* from_closure: the number of values written through a RowWriter (cells and appended rows) is
+   either reported exactly or refused - it never wraps *)
+Theorem C17_closure_count : forall parts n, closure_count parts = Ok n ->
+  n = fold_left N.add parts 0 /\ n <= u16_max.
+Proof. exact closure_count_ok. Qed.
+
 (* ---- non-vacuity ----------------------------------------------------------------------- *)
 
 Definition tint := TNative NInt.
@@ -213,13 +320,69 @@ Example C17_ex_dynamic :
   all_leaves small_leaf bad = true /\ ser_value true t bad = Err SE_MismatchedType.
 Proof. vm_compute. repeat split; reflexivity. Qed.
 
+(* ---- anchors: the definitions the driver evaluates, on accepting AND rejecting inputs ------- *)
+
+Example C17_ex_known_class_narrow :
+  (* in the class *)
+  known_class (KVec (KOption (KBase BI32))) (TVector tint 2) = true /\
+  known_class (KVec (KMaybeEmpty (KBase BI32))) (TVector tint 2) = true /\
+  (* the shape, but the code rejects the pair (other element type / a mismatching sibling) *)
+  known_class (KVec (KOption (KBase BI32))) (TVector ttext 2) = false /\
+  known_class (KTuple [KVec (KOption (KBase BI32)); KBase BI32]) (TTuple [TVector tint 2; ttext]) = false /\
+  (* an ordinary wrong acceptance would not be in the class *)
+  known_class (KBase BI32) ttext = false /\ known_class (KVec (KBase BI32)) (TVector tint 2) = false /\
+  (* empty at a variable-width element type has a representation *)
+  known_class (KVec (KMaybeEmpty (KBase BCqlVarint))) (TVector (TNative NVarint) 2) = false /\
+  val_known (KVec KCqlValue) (TVector tint 2) (VSeq [VLeaf (CInt 7); VLeaf CEmpty]) = true /\
+  val_known (KVec KCqlValue) (TVector tint 2) (VSeq [VLeaf (CInt 7); VLeaf (CText [97])]) = false /\
+  val_known (KVec (KOption (KBase BI32))) (TVector tint 2) (VSeq [VWrap (VLeaf (CInt 7)); VWrap (VLeaf (CInt 8))]) = false /\
+  dyn_known (TVector tint 2) (CVector [CInt 7; CText [97]]) = false /\
+  dyn_known (TVector ttext 2) (CVector [CText [97]; CEmpty]) = false.
+Proof. vm_compute. repeat split; reflexivity. Qed.
+
+Example C17_ex_spec :
+  doc_compat Ser (KVec (KBase BUnset)) (TList tint) = false /\ spec_compat Ser (KVec (KBase BUnset)) (TList tint) = true /\
+  doc_compat Ser (KMaybeUnset (KBase BI32)) tint = true /\ doc_compat Ser (KBase BUnset) ttext = true /\
+  doc_compat Ser (KTuple [KBase BUnset; KMaybeUnset (KBase BI32)]) (TTuple [tint; tint]) = false /\
+  doc_compat Ser (KBase BI32) (TNative NBigInt) = false /\ doc_compat Ser (KBase BString) (TNative NAscii) = true /\
+  doc_compat De (KBase BArrU8) (TNative NBlob) = false /\ doc_compat De (KHashSet (KBase BI32)) (TList tint) = false /\
+  doc_compat De (KCow (KBase BSliceU8)) (TNative NBlob) = true /\
+  relaxed (KHashSet (KBase BI32)) (TList tint) = true /\ relaxed (KBase BI32) tint = false /\
+  relaxed (KVec (KOption (KBase BI32))) (TVector tint 2) = false /\
+  ser_cell_ok (KBase BI32) ttext true = false /\ ser_cell_ok (KBase BI32) tint false = false /\
+  ser_cell_ok (KBase BI32) tint true = true /\ deser_cell_ok (KHashSet (KBase BI32)) (TList tint) true = false /\
+  deser_cell_ok (KVec (KBase BI32)) (TList tint) false = false /\
+  val_fits (KBase BI32) ttext (VLeaf (CInt 1)) = false /\ val_fits (KOption (KBase BI32)) ttext VNull = true /\
+  val_fits (KHashSet (KBase BI32)) tint (VSeq []) = false /\ val_fits (KVec (KBase BI32)) (TList ttext) (VSeq []) = true /\
+  val_fits (KVec (KOption (KBase BI32))) (TVector tint 2) (VSeq [VWrap (VLeaf (CInt 7)); VNull]) = false /\
+  dyn_fits (TList tint) (CList [CInt 1; CText [97]]) = false /\ dyn_fits (TVector tint 2) (CVector [CInt 1]) = false /\
+  dyn_fits (TTuple [tint; ttext]) (CTuple [Some (CInt 1)]) = true /\
+  is_typeck (KE SE_VectorLen) = false /\ is_typeck (KE SE_NoSuchFieldInUdt) = true /\ is_size_err (KE SE_VectorLen) = false /\
+  row_check [KBase BI32; KBase BString] [tint; tint] = RK_Column 1 TE_MismatchedType /\
+  row_check [KBase BI32] [tint; tint] = RK_WrongColumnCount /\
+  typed_rows [KBase BI32; KBase BString] [tint; ttext] 3 = Ok 3 /\
+  closure_count [40000; 40000] = Err RE_TooManyValues /\ closure_count [65535] = Ok 65535 /\
+  closure_count [65535; 1] = Err RE_TooManyValues.
+Proof. vm_compute. repeat split; reflexivity. Qed.
+
+Print Assumptions C17_code_matrix.
+Print Assumptions C17_matrix_ser_doc_refuted.
 Print Assumptions C17_matrix_ser.
+Print Assumptions C17_matrix_ser_doc.
 Print Assumptions C17_matrix_ser_refuted.
+Print Assumptions C17_known_class_shape.
 Print Assumptions C17_documented_accepted.
 Print Assumptions C17_matrix_deser.
 Print Assumptions C17_row_check.
+Print Assumptions C17_row_check_ok.
+Print Assumptions C17_read_guard.
+Print Assumptions C17_read_refuses.
 Print Assumptions C17_accept_sound.
 Print Assumptions C17_reject_complete.
+Print Assumptions C17_matrix_ser_lazy_refuted.
+Print Assumptions C17_value_accept.
+Print Assumptions C17_value_reject.
+Print Assumptions C17_value_reject_refuted.
 Print Assumptions C17_dynamic_reject.
 Print Assumptions C17_dynamic_reject_refuted.
 Print Assumptions C17_dynamic_accept.
@@ -233,3 +396,5 @@ Print Assumptions C17_count.
 Print Assumptions C17_row_count.
 Print Assumptions C17_row_refuses.
 Print Assumptions C17_chunks.
+Print Assumptions C17_count_after_row.
+Print Assumptions C17_closure_count.
